@@ -6,6 +6,7 @@ package main
 
 import (
 	"fmt"
+	"sync"
 	"math/big"
 	"strings"
 )
@@ -243,11 +244,29 @@ func zeroOf(s *Sort) Term {
 	case SErr:
 		return tErrNil
 	case SArr:
+		if !isValueSort(s.Elem) {
+			// no literal exists for uninterpreted element sorts: an arbitrary (declared) array stands in
+			name := "zeroarr." + sanitize(s.String())
+			zeroArrDecls.Store(name, "(declare-const "+name+" "+s.String()+")")
+			return Term{name, s}
+		}
 		return Term{"((as const " + s.String() + ") " + zeroOf(s.Elem).S + ")", s}
 	case SUnint:
 		return Term{"zero!" + s.Name, s}
 	}
 	panic("zeroOf " + s.String())
+}
+
+var zeroArrDecls sync.Map
+
+func isValueSort(s *Sort) bool {
+	switch s.K {
+	case SBool, SBV, SInt, SRef:
+		return true
+	case SArr:
+		return isValueSort(s.Elem)
+	}
+	return false
 }
 
 // resize a bit-vector (or pass through equal width).
